@@ -52,3 +52,91 @@ mod verif_kani_cv {
     #[kani::proof]
     fn arith_uint_neg() { let a: u64 = kani::any(); let r = -CelValue::UInt(a); is_error(r); }
 }
+
+// ---- C16: timestamp / duration arithmetic on the real chrono code, all representable values ----
+#[cfg(kani)]
+mod verif_kani_time {
+    use super::*;
+
+    fn any_ts() -> DateTime<Utc> {
+        let s: i64 = kani::any();
+        let n: u32 = kani::any();
+        kani::assume(n < 1_000_000_000);
+        match DateTime::<Utc>::from_timestamp(s, n) { Some(t) => t, None => { kani::assume(false); unreachable!() } }
+    }
+    fn any_dur() -> Duration {
+        let s: i64 = kani::any();
+        let n: u32 = kani::any();
+        kani::assume(n < 1_000_000_000);
+        match Duration::new(s, n) { Some(d) => d, None => { kani::assume(false); unreachable!() } }
+    }
+    fn ts_of(r: &CelValue) -> Option<DateTime<Utc>> { match r { CelValue::TimeStamp(t) => Some(*t), _ => None } }
+    fn dur_of(r: &CelValue) -> Option<Duration> { match r { CelValue::Duration(d) => Some(*d), _ => None } }
+    fn is_err(r: &CelValue) -> bool { matches!(r, CelValue::Err(_)) }
+
+    #[kani::proof]
+    fn time_ts_plus_dur() {
+        let t = any_ts(); let d = any_dur();
+        kani::cover!(true);
+        let r = CelValue::TimeStamp(t) + CelValue::Duration(d);
+        match t.checked_add_signed(d) { Some(x) => assert!(ts_of(&r) == Some(x)), None => assert!(is_err(&r)) }
+        // (t + d) - d == t
+        if let Some(x) = ts_of(&r) {
+            let back = CelValue::TimeStamp(x) - CelValue::Duration(d);
+            assert!(ts_of(&back) == Some(t));
+            std::mem::forget(back);
+        }
+        std::mem::forget(r);
+    }
+    #[kani::proof]
+    fn time_dur_plus_ts_commutes() {
+        let t = any_ts(); let d = any_dur();
+        let r = CelValue::Duration(d) + CelValue::TimeStamp(t);
+        match t.checked_add_signed(d) { Some(x) => assert!(ts_of(&r) == Some(x)), None => assert!(is_err(&r)) }
+        std::mem::forget(r);
+    }
+    #[kani::proof]
+    fn time_ts_minus_dur() {
+        let t = any_ts(); let d = any_dur();
+        let r = CelValue::TimeStamp(t) - CelValue::Duration(d);
+        match t.checked_sub_signed(d) { Some(x) => assert!(ts_of(&r) == Some(x)), None => assert!(is_err(&r)) }
+        std::mem::forget(r);
+    }
+    #[kani::proof]
+    fn time_ts_minus_ts_roundtrip() {
+        let t1 = any_ts(); let t2 = any_ts();
+        let r = CelValue::TimeStamp(t1) - CelValue::TimeStamp(t2);
+        // never fails: the distance of two representable instants is a representable duration
+        let d = match dur_of(&r) { Some(d) => d, None => { assert!(false); return } };
+        // (t1 - t2) + t2 == t1
+        let back = CelValue::Duration(d) + CelValue::TimeStamp(t2);
+        assert!(ts_of(&back) == Some(t1));
+        std::mem::forget(back); std::mem::forget(r);
+    }
+    #[kani::proof]
+    fn time_dur_plus_minus_dur() {
+        let d1 = any_dur(); let d2 = any_dur();
+        let r = CelValue::Duration(d1) + CelValue::Duration(d2);
+        match d1.checked_add(&d2) {
+            Some(x) => {
+                assert!(dur_of(&r) == Some(x));
+                // d1 + d2 - d2 == d1
+                let back = CelValue::Duration(x) - CelValue::Duration(d2);
+                assert!(dur_of(&back) == Some(d1));
+                std::mem::forget(back);
+            }
+            None => assert!(is_err(&r)),
+        }
+        std::mem::forget(r);
+    }
+    #[kani::proof]
+    fn time_ordering_is_chronological() {
+        let s1: i64 = kani::any(); let n1: u32 = kani::any(); let s2: i64 = kani::any(); let n2: u32 = kani::any();
+        kani::assume(n1 < 1_000_000_000 && n2 < 1_000_000_000);
+        let (t1, t2) = match (DateTime::<Utc>::from_timestamp(s1, n1), DateTime::<Utc>::from_timestamp(s2, n2)) { (Some(a), Some(b)) => (a, b), _ => return };
+        let lt = CelValue::TimeStamp(t1).lt(CelValue::TimeStamp(t2));
+        let before = s1 < s2 || (s1 == s2 && n1 < n2);
+        match &lt { CelValue::Bool(b) => assert!(*b == before), _ => assert!(false) }
+        std::mem::forget(lt);
+    }
+}
